@@ -58,5 +58,26 @@ for tag, body in (("FINDINGS", findings), ("SEEDED", seeded), ("CHECKS", checks)
     a, b = f"<!-- BEGIN {tag} -->", f"<!-- END {tag} -->"
     if a in s:
         s = s[:s.index(a) + len(a)] + "\n" + body + "\n" + s[s.index(b):]
+# per-property "as built" notes under each §6 heading
+import re as _re
+for c in man["checks"]:
+    pid = c["property_id"]
+    a, b = f"<!-- BEGIN ASBUILT {pid} -->", f"<!-- END ASBUILT {pid} -->"
+    try:
+        ev = json.load(open(os.path.join(HERE, "evidence", pid + ".json")))
+        thms = [t.split(".")[-1] for t in ev["coverage"].get("theorems", []) if t.split(".")[-1].startswith(pid + "_")]
+    except Exception:
+        thms = []
+    body = (f"> **As built.** {c['technique']}.\n>\n> {c['level_claimed']['text']}\n>\n"
+            f"> Files: `lean/TempestVerif/Props/{pid}.lean`, `harness/{pid.lower()}.py`, `lean/TempestVerif/Drv/{pid}.lean`"
+            f" (models and translators: see the imports of the Props file). Property-level theorems: "
+            + (", ".join(f"`{t}`" for t in thms[:40]) or "see the Props file") + ".\n>\n"
+            f"> The plan below is the round-0 text; where it differs from this note, this note is what exists.")
+    if a in s:
+        s = s[:s.index(a) + len(a)] + "\n" + body + "\n" + s[s.index(b):]
+    else:
+        m = _re.search(rf"^### {pid} — .*$", s, _re.M)
+        if m:
+            s = s[:m.end()] + "\n\n" + a + "\n" + body + "\n" + b + "\n" + s[m.end():]
 open(p, "w").write(s)
 print("tables regenerated")
